@@ -13,6 +13,7 @@ import ast
 
 from sa import mutate as M
 from sa import pattern as PT
+from sa.consts import UNKNOWN
 from sa.ctx import Ctx
 from sa.effects import Raises
 from sa.loader import AnalysisError, call_name, norm, own_nodes, parent
@@ -126,6 +127,87 @@ def rule_musig_ranges(ctx: Ctx, rep: Report) -> None:
     rep.ob(rule, "tweaks_and_flags_same_length", any("len(" in c.subject and c.op == "!=" for c in refusal_constraints(ctx, ka)) or "strict=True" in norm(ka.node), ka.where(), "as many tweak flags as tweaks")
 
 
+def rule_gacc(ctx: Ctx, rep: Report) -> None:
+    """C16.gacc: BIP327 multiplies the signer's key (and the verifier's
+    coefficient) by g * gacc, with g = 1 or n - 1 by the parity of the
+    aggregate key: gacc is applied on *both* parities. Signing and partial
+    verification are siblings and must agree, so in each function that reads
+    the accumulator at least one use of it is outside every branch that tests
+    the parity -- a gacc that enters only on the even arm verifies honest
+    partial signatures as false after an x-only tweak negated the key."""
+    rule = "C16.gacc"
+    mi = ctx.module("btclib.ecc.musig2")
+    n = 0
+    for fi in sorted(mi.functions.values(), key=lambda f: f.qualname):
+        refs = [x for x in own_nodes(fi.node) if isinstance(x.__class__, type) and isinstance(x, (ast.Attribute, ast.Name)) and isinstance(getattr(x, "ctx", None), ast.Load)
+                and (x.attr if isinstance(x, ast.Attribute) else x.id) == "gacc"]
+        # only the functions that decide on the parity of the aggregate key are in question
+        parity = any(("% 2" in str(norm(t.ast)) or "& 1" in str(norm(t.ast)) or "has_even_y" in str(norm(t.ast))) for t in ctx.cfg(fi).nodes if t.kind == "test" and t.ast is not None) or \
+            any(isinstance(e, ast.IfExp) and ("% 2" in str(norm(e.test)) or "has_even_y" in str(norm(e.test))) for e in own_nodes(fi.node))
+        if not parity:
+            continue
+        if not refs:
+            continue
+        g = ctx.cfg(fi)
+        n += 1
+        free = [x for x in refs if not any("% 2" in str(t) or "& 1" in str(t) or "has_even_y" in str(t) for t, _ in g.facts_at_ast(x))]
+        rep.ob(rule, fi.qualname, bool(free), fi.where(refs[0]), "the accumulator multiplies on both parities" if free else
+               f"every use of gacc in {fi.name} is under a parity test: on the other parity the accumulated negations are dropped")
+    rep.floor(rule, 3)
+
+
+def _up(n: ast.AST):
+    n = parent(n)
+    while n is not None and isinstance(n, ast.expr):
+        yield n
+        n = parent(n)
+
+
+def rule_sum_multiset(ctx: Ctx, rep: Report) -> None:
+    """C16.sum_multiset: BIP352 sums one term per eligible input; two inputs
+    with the same key (or the same ECDH share) are two terms. What is handed
+    to pub_key_sum / prv_key_sum is therefore built as a list (or from dict
+    *values*, one per input), never passed through a set -- a set drops the
+    repeated term and sender and receiver derive different outputs."""
+    from sa.canon import expand
+    rule = "C16.sum_multiset"
+    n = 0
+    for fi in sorted(ctx.prog.functions.values(), key=lambda f: f.qualname):
+        if not fi.module.name.endswith("silent_payments"):
+            continue
+        for c in own_nodes(fi.node):
+            if not (isinstance(c, ast.Call) and call_name(c) in ("pub_key_sum", "prv_key_sum") and c.args):
+                continue
+            n += 1
+            text = str(expand(fi, c.args[0]))
+            tree = ast.parse(text, mode="eval")
+            bad = [x for x in ast.walk(tree) if isinstance(x, (ast.Set, ast.SetComp)) or (isinstance(x, ast.Call) and call_name(x) in ("set", "frozenset", "fromkeys"))]
+            rep.ob(rule, f"{fi.qualname}:{call_name(c)}({norm(c.args[0])[:40]})", not bad, fi.where(c), "one term per input" if not bad else
+                   f"the terms pass through a set (`{text[:80]}`): equal terms of different inputs collapse into one")
+    rep.floor(rule, 4)
+
+
+def rule_ecies_kdf(ctx: Ctx, rep: Report) -> None:
+    """C16.ecies_kdf: the key derivation hashes the *compressed* shared point,
+    whatever encoding the peer's public key arrived in -- the same key written
+    as 33 or 65 bytes is one key, and both sides must derive one set of keys."""
+    rule = "C16.ecies_kdf"
+    dk = ctx.func("btclib.ecc.ecies.derive_keys")
+    calls = [c for c in own_nodes(dk.node) if isinstance(c, ast.Call) and call_name(c) == "bytes_from_point"]
+    if not calls:
+        rep.unknown(rule, "derive_keys", dk.where(), "no bytes_from_point call: shape not recognised")
+        return
+    for c in calls:
+        kw = [k.value for k in c.keywords if k.arg == "compressed"]
+        v = ctx.fold(kw[0], dk.module) if kw else True  # the default is compressed
+        if v is UNKNOWN:
+            # not a constant: acceptable only if it does not depend on an argument's encoding
+            dep = any(isinstance(x, ast.Call) and call_name(x) == "len" for x in ast.walk(kw[0]))
+            rep.ob(rule, "derive_keys:compressed", not dep, dk.where(c), f"compressed={norm(kw[0])}" + (": the KDF input follows the length of the key as it was written, so 33- and 65-byte spellings of one key derive different keys" if dep else ""))
+        else:
+            rep.ob(rule, "derive_keys:compressed", v is True, dk.where(c), "the shared point is hashed compressed" if v is True else "the shared point is hashed uncompressed: not the Electrum/BIE1 derivation")
+
+
 def rule_bool_total(ctx: Ctx, rep: Report) -> None:
     """C16.bool_total: proof predicates answer True/False."""
     rule = "C16.bool_total"
@@ -145,10 +227,19 @@ RULES = [
     ("C16.sp_shared", rule_sp_shared),
     ("C16.musig_store", rule_musig_store),
     ("C16.musig_ranges", rule_musig_ranges),
+    ("C16.gacc", rule_gacc),
+    ("C16.sum_multiset", rule_sum_multiset),
+    ("C16.ecies_kdf", rule_ecies_kdf),
     ("C16.bool_total", rule_bool_total),
 ]
 
 CONTROLS = [
+    {"rule": "C16.sum_multiset", "name": "the ECDH shares are collected in a set", "module": "btclib.psbt.silent_payments",
+     "edit": lambda ctx: M.sub_expr(ctx, "btclib.psbt.silent_payments._share_and_sum", lambda n: isinstance(n, ast.Call) and call_name(n) == "pub_key_sum" and norm(n.args[0]) == "shares", "sp.pub_key_sum(list(set(shares)))")},
+    {"rule": "C16.ecies_kdf", "name": "the KDF input follows the encoding of the peer's key", "module": "btclib.ecc.ecies",
+     "edit": lambda ctx: M.sub_expr(ctx, "btclib.ecc.ecies.derive_keys", lambda n: isinstance(n, ast.keyword) and n.arg == "compressed", "compressed=len(sec) == 33")},
+    {"rule": "C16.gacc", "name": "partial verification applies gacc on the even arm only", "module": "btclib.ecc.musig2",
+     "edit": lambda ctx: M.sub_expr(ctx, "btclib.ecc.musig2.partial_sig_verify_", M.is_text("g = g * values.gacc % secp256k1.n"), "g = (g * values.gacc if values.Q[1] % 2 == 0 else g) % secp256k1.n")},
     {"rule": "C16.ecies_order", "name": "decrypt before the MAC check", "module": EC,
      "edit": lambda ctx: _swap_mac(ctx)},
     {"rule": "C16.sp_shared", "name": "the scanner computes its own t_k", "module": SP,
